@@ -735,3 +735,100 @@ def _guarded_defs(fn, op, depth=8):
             seen_.add(k_)
             uniq.append((b_, c_, e_))
     return uniq
+
+
+def const_skipping_paths(fn, start, must_blocks, stop_blocks, cut_edges=(), limit=20000):
+    """skipping_paths with flags followed: the search runs over (block, known constants) where the constants are whole locals
+    last assigned a bool literal, an enum aggregate (its variant is remembered) or a copy of such a local; a switch on a
+    known bool, or on the discriminant of a local of known variant, is followed on its matching edge only.  Locals that are
+    ever mutably borrowed are not followed.  Paths that are infeasible only because of a flag set on the way (`break true`
+    ... `if valid`, `return Some(x)` spliced into `match helper() { Some(..) => .., None => continue }`) do not count."""
+    must = set(must_blocks)
+    cut = set(cut_edges)
+    escaped = set()
+    for blk in fn.blocks:
+        for st in blk["stmts"]:
+            if st["k"] == "assign" and ((st["rv"]["k"] == "ref" and st["rv"].get("mut")) or st["rv"]["k"] == "rawptr"):
+                escaped.add(st["rv"]["place"]["l"])
+
+    def opval(env, op):
+        if "const" in op:
+            c = op["const"]
+            if c.get("kind") == "bool":
+                return ("bool", bool(c.get("value")))
+            return None
+        pl = op.get("copy") or op.get("move")
+        if pl and not pl["p"]:
+            return env.get(pl["l"])
+        return None
+
+    def step(env, blk):
+        env = dict(env)
+        for st in blk["stmts"]:
+            if st["k"] == "set_discr":
+                env.pop(st.get("place", {}).get("l"), None)
+                continue
+            if st["k"] != "assign":
+                continue
+            l = st["lhs"]["l"]
+            if st["lhs"]["p"]:
+                continue        # a field write does not change the variant
+            rv = st["rv"]
+            v = None
+            if l not in escaped:
+                if rv["k"] == "use":
+                    v = opval(env, rv["a"])
+                elif rv["k"] == "agg" and rv.get("variant") is not None:
+                    v = ("variant", rv["variant"])
+                elif rv["k"] == "discr" and not rv["place"]["p"]:
+                    v = env.get(rv["place"]["l"])
+                elif rv["k"] == "un" and rv.get("op") == "Not":
+                    a = opval(env, rv["a"])
+                    v = ("bool", not a[1]) if a and a[0] == "bool" else None
+            if v is None:
+                env.pop(l, None)
+            else:
+                env[l] = v
+        t = blk["term"]
+        if t["k"] == "call" and t.get("dest") and not t["dest"]["p"]:
+            env.pop(t["dest"]["l"], None)
+        return env
+
+    def succs(b, env):
+        t = fn.blocks[b]["term"]
+        if t["k"] == "switch":
+            v = opval(env, t["discr"])
+            if v is not None:
+                from l4sa.core import SwitchInfo
+                si = SwitchInfo(fn, b)
+                want = v[1]
+                tg = [tt for lab, tt in si.labelled_edges() if lab == want]
+                if len(tg) == 1:
+                    return tg
+        return list(fn.succ[b])
+
+    from collections import deque
+    hit = set()
+    seen = set()
+    qd = deque()
+    if start not in must:
+        qd.append((start, ()))
+    n = 0
+    while qd:
+        b, envt = qd.popleft()
+        if (b, envt) in seen:
+            continue
+        seen.add((b, envt))
+        n += 1
+        if n > limit:
+            return skipping_paths(fn, start, must_blocks, stop_blocks, cut_edges)
+        if b in stop_blocks and b != start:
+            hit.add(b)
+            continue
+        env = step(dict(envt), fn.blocks[b])
+        e2 = tuple(sorted(env.items()))
+        for sx in succs(b, env):
+            if (b, sx) in cut or sx in must:
+                continue
+            qd.append((sx, e2))
+    return hit
